@@ -8,7 +8,12 @@ use std::sync::atomic::Ordering::{Acquire, Relaxed, Release};
 
 use crossbeam_utils::CachePadded;
 use linear_hashtbl::raw::RawTable;
+#[cfg(not(oxidd_verif))]
 use parking_lot::{Mutex, MutexGuard};
+#[cfg(oxidd_verif)]
+use parking_lot::MutexGuard;
+#[cfg(oxidd_verif)]
+use crate::verif_sync::Mutex;
 use rustc_hash::FxHasher;
 
 use oxidd_core::Tag;
